@@ -83,6 +83,27 @@ def run(ctx):
                 else:
                     new = lines[:pos] + stmt.split("\n") + lines[pos:]
                 cases.append(("\n".join(new) + "\n", kind))
+        # a file that is not text: a statement with bytes that are not valid UTF-8 (outside comments and strings) cannot
+        # be assembled, through every path that reads files (main file of the file APIs / command line; included file)
+        raw_faults = [b"lda #0x1\xff2", b"\xff\xfe\xfa", b".db 0x1\xe92", b"st\xe9 0x10", b".db 1\n\x80\x80\n.db 2"]
+        for i in range(3 if tier == "quick" else 20):
+            pr = gen_program.generate(rng, run_.drv, rom="low_rom", features={"incbin": False, "usermap": False})
+            lines = pr["src"].rstrip("\n").split("\n")
+            depth, tops = 0, [0]
+            for li, l in enumerate(lines):
+                depth += l.count("{") - l.count("}")
+                if depth == 0:
+                    tops.append(li + 1)
+            pos = rng.choice(tops)
+            stmt = raw_faults[i % len(raw_faults)]
+            if i % 2 == 0:
+                data = "\n".join(lines[:pos]).encode() + b"\n" + stmt + b"\n" + "\n".join(lines[pos:]).encode() + b"\n"
+                cases.append((data, "not-utf8-main-file"))
+            else:
+                inc = f"zq_raw_{i}.s"
+                with open(run_.tmp + "/" + inc, "wb") as fh:
+                    fh.write(b"nop\n" + stmt + b"\nnop\n")
+                cases.append(("\n".join(lines[:pos] + [f".include '{inc}'"] + lines[pos:]) + "\n", "not-utf8@include"))
         # a program that declared its own mapping must not change what the next program of the process may address
         for k in range(2 if tier == "quick" else 10):
             lo = rng.randrange(0x70, 0x7a)
@@ -92,11 +113,16 @@ def run(ctx):
                             (f"*=0x008000\nnop\n*=0x{lo + 2:02x}9000\nlda #1\n", "unmapped-code-after-map-program")]
         cli_budget = 40 if tier == "quick" else 600
         for src, kind in cases:
-            base = impl.assemble(src, "low_rom", cwd=run_.tmp)
-            cls = core_class(base)
-            if cls == "timeout":
-                continue
-            entries = ["stringApi", "assemble", "asPatch"] + (["cli"] if cli_budget > 0 else [])
+            if isinstance(src, bytes):
+                # no in-memory run exists for a file that is not text: the source cannot be assembled
+                cls = "otherExc"
+                entries = ["assemble", "asPatch"] + (["cli"] if cli_budget > 0 else [])
+            else:
+                base = impl.assemble(src, "low_rom", cwd=run_.tmp)
+                cls = core_class(base)
+                if cls == "timeout":
+                    continue
+                entries = ["stringApi", "assemble", "asPatch"] + (["cli"] if cli_budget > 0 else [])
             model = run_.drv.ask([f"front {e} {cls}" for e in entries])
             for e, m_ in zip(entries, model):
                 if e == "stringApi":
@@ -111,9 +137,9 @@ def run(ctx):
                 s.nontrivial.add((kind, e, cls))
                 s.count(f"{e}:{cls}")
                 if rep != m_:
-                    s.disagree({"entry": e, "fault": kind, "core": cls, "src": src}, m_, rep)
+                    s.disagree({"entry": e, "fault": kind, "core": cls, "src": src if isinstance(src, str) else src.decode("latin-1")}, m_, rep)
                 success = rep == "none" or rep.startswith("status 0")
-                inp = {"entry": e, "fault": kind, "src": src}
+                inp = {"entry": e, "fault": kind, "src": src if isinstance(src, str) else src.decode("latin-1"), "encoding": "utf-8" if isinstance(src, str) else "raw bytes shown as latin-1"}
                 if success != (cls == "ok"):
                     s.violate(inp, "success" if cls == "ok" else "failure reaches the caller", rep,
                               "a failed assembly is reported as success" if success else "a successful assembly is reported as failure")
@@ -121,8 +147,8 @@ def run(ctx):
                     s.violate(inp, "no success announcement", rep, "'Success !' is announced for a failed assembly")
                 # the fault must make the in-memory assembly fail (otherwise the injection was not an error here)
             if kind != "none" and cls == "ok":
-                s.violate({"fault": kind, "src": src}, "the assembly fails", "assembled (None returned)", "a source with a definite error at a reached top-level position is assembled and reported as success")
-        s.sample({"fault": cases[1][1], "src": cases[1][0][:300]})
+                s.violate({"fault": kind, "src": src if isinstance(src, str) else src.decode("latin-1")}, "the assembly fails", "assembled (None returned)", "a source with a definite error at a reached top-level position is assembled and reported as success")
+        s.sample({"fault": cases[1][1], "src": str(cases[1][0][:300])})
         return [s]
     finally:
         run_.close()
